@@ -54,6 +54,13 @@ def run(ctx: Ctx, rep: Report) -> None:
     # single-qudit retargeting (ZXZXZ) spells the same rotation two ways
     from ..rules.branchsib import rule_altspell
     rule_altspell(ctx, rep, 'bqskit/passes/', 3)
+    # ... and the predicate that selects it implies those gates are native
+    from ..rules.guardemit import rule_guardemit
+    rule_guardemit(
+        ctx, rep,
+        'bqskit/passes/control/predicates/single.py:'
+        'ZXGatePredicate.get_truth_value',
+        'bqskit/passes/rules/zxzxz.py:ZXZXZDecomposition.run')
 
 
 def wf_rule(ctx: Ctx, rep: Report) -> None:
